@@ -60,6 +60,9 @@ func equalData(a, b zygo.Sexp) bool {
 		return ok && x.Name() == y.Name()
 	case *zygo.SexpSentinel:
 		return a == b
+	case *zygo.SexpRaw:
+		y, ok := b.(*zygo.SexpRaw)
+		return ok && string(x.Val) == string(y.Val)
 	case *zygo.SexpPair:
 		y, ok := b.(*zygo.SexpPair)
 		return ok && equalData(x.Head, y.Head) && equalData(x.Tail, y.Tail)
